@@ -73,7 +73,26 @@ func parseRaces(log string) []raceReport {
 		}
 		pair := funcs[:2]
 		sort.Strings(pair)
-		out = append(out, raceReport{Key: pair[0] + " <-> " + pair[1], Harness: harness, Text: strings.TrimSpace(blk)})
+		out = append(out, raceReport{Key: raceKey(pair[0], pair[1]), Harness: harness, Text: strings.TrimSpace(blk)})
 	}
 	return out
+}
+
+// Two long-standing root causes in package packet produce races with an open-ended set of
+// partner functions; their reports are keyed by the root-cause site alone so that one finding
+// stays one finding however long the exploration runs. Every other race keeps both functions.
+var raceAnchors = []struct{ fn, key string }{
+	{"packet/fastlog.(*Line).Struct", "logging read of Host/MACEntry state without the row lock (PrintTable -> fastlog)"},
+	{"packet.(*MACEntry).FastLog", "logging read of Host/MACEntry state without the row lock (PrintTable -> fastlog)"},
+	{"packet.Host.FastLog", "logging read of Host/MACEntry state without the row lock (PrintTable -> fastlog)"},
+	{"packet.(*Session).onlineTransition", "packet.(*Session).onlineTransition writes Host/MACEntry state without the row lock"},
+}
+
+func raceKey(a, b string) string {
+	for _, an := range raceAnchors {
+		if a == an.fn || b == an.fn {
+			return an.key + " <-> (any)"
+		}
+	}
+	return a + " <-> " + b
 }
